@@ -725,7 +725,7 @@ class BroadcastJoin(Merge, PartitionsFiltered):
         # A left (right) join can only broadcast its right (left) input. Do
         # not re-derive the side from the partition counts: an ``npartitions``
         # hint may have repartitioned the other input to fewer partitions.
-        if self.how == "left":
+        if self.how in ("left", "leftsemi"):
             return "right"
         if self.how == "right":
             return "left"
